@@ -750,7 +750,7 @@ def token_domain(ctx):
     """R20.4: the tokens ever registered are all handled before the `_ => unreachable!()` arm."""
     allowed_consts = {'io_loop::STREAM', 'io_loop::HEARTBEAT', 'io_loop::ALLOC_CHANNEL', 'io_loop::SET_BLOCKED_TX'}
     regs = registrations(ctx)
-    for p, kind, tok, node, _h in regs:
+    for p, kind, tok, node, _h, _ty in regs:
         if kind == 'deregister':
             continue
         if tok in allowed_consts or tok == 'mio::Token(0)':
@@ -840,12 +840,23 @@ def registrations(ctx):
                             if c.get('k') in ('Call', 'MethodCall') and H.norm_path(H.callee_path(c) or '') == p:
                                 args = H.call_args(c)
                                 if prm[0] < len(args):
-                                    sites.append((p2, n['name'], H.term(args[prm[0]]), c, H.term(args[hprm[0]]) if hprm and hprm[0] < len(args) else None))
+                                    sites.append((p2, n['name'], H.term(args[prm[0]]), c, H.term(args[hprm[0]]) if hprm and hprm[0] < len(args) else None,
+                                                  _handle_ty(args[hprm[0]]) if hprm and hprm[0] < len(args) else None))
                     if sites:
                         out.extend(sites)
                         continue
-                out.append((p, n['name'], tok, n, H.term(n['args'][0])))
+                out.append((p, n['name'], tok, n, H.term(n['args'][0]), _handle_ty(n['args'][0])))
     return out
+
+
+def _handle_ty(node):
+    """type of the registered event source, without the borrow it is passed by"""
+    t = (node.get('ty') or '').strip()
+    while t.startswith('&'):
+        t = t[1:].strip()
+        if t.startswith('mut '):
+            t = t[4:].strip()
+    return t
 
 
 def seal_before_closing_states(ctx):
